@@ -85,6 +85,12 @@ copied to the FRONT of a zeroed 32-byte array — a short slice is left-aligned 
 scalar `256^31`, not `1`), a long one is cut after 32 bytes -/
 def bfFromSlice (data : Bytes) : Bytes := fit 32 data
 
+/-- `ChildNumber::from_normal_idx(i)` / `from_hardened_idx(i)` (`keychain/src/extkey_bip32.rs`):
+`assert_eq!(index & (1 << 31), 0)` — a PANIC for every index from 2^31 on, otherwise the child
+number; its `u32` form (`From<ChildNumber> for u32`) sets bit 31 for the hardened one. -/
+def childFromIdx (hardened : Bool) (i : Nat) : Option ChildNumber :=
+  if i / 2^31 % 2 = 1 then none else some (if hardened then .hardened i else .normal i)
+
 def showNonce : Option Bytes → String
   | some b => toHex b
   | none => "err"
